@@ -394,10 +394,18 @@ func canonEntry(e *pending.PreConfirmed) string {
 	}
 	txs := make([]string, len(e.Block.Transactions))
 	for i, tx := range e.Block.Transactions {
+		if tx == nil {
+			txs[i] = "nil"
+			continue
+		}
 		txs[i] = fv(tx.Hash()) + "." + txTag(tx)
 	}
 	rcs := make([]string, len(e.Block.Receipts))
 	for i, r := range e.Block.Receipts {
+		if r == nil {
+			rcs[i] = "nil"
+			continue
+		}
 		rcs[i] = fmt.Sprintf("%s.%s.%d", fv(r.TransactionHash), fv(r.Fee), len(r.Events))
 	}
 	tds := make([]string, len(e.TransactionStateDiffs))
